@@ -222,8 +222,25 @@ def gen_scenario(rng: random.Random) -> list[list[str]]:
         return f"Mark: s{u[0]}"
     w1 = rng.choice([0.2, 0.3, 0.5, 0.8])
     w2 = rng.choice([0.2, 0.4, 1.0])
-    k = rng.randrange(11)
-    if k == 9:      # a block started from a Watch (or Alarm) inside a block that stays active
+    k = rng.randrange(16)
+    if k in (13, 14, 15):
+        # a multi-tick command in a body that runs again while (or just when) the previous invocation's command ends
+        cmd = rng.choice(["LongA", "LongB", "LongC", "Ramp"])
+        n = rng.randint(2, 12)
+        if k == 13:      # macro called back to back
+            lines = ["Macro: MR", "    " + m(), f"    {cmd}: {n}", "    " + m()] + ["Call macro: MR"] * rng.randint(2, 3) + [m()]
+        elif k == 14:    # always-true alarm
+            lines = ["Base: s", f"Alarm: {rng.choice(['Run Time > 0.2 s', 'LVL >= 50 %', 'PV2 < 30 degC'])}", "    " + m(), f"    {cmd}: {n}",
+                     "    " + m(), m(), f"Wait: {rng.choice([4.0, 6.0])}s", m()]
+        else:            # macro called from the main path with something between the calls
+            lines = ["Macro: MR", "    " + m(), f"    {cmd}: {n}", "    " + m(), "Call macro: MR", m(),
+                     f"Wait: {rng.choice([0.2, 0.5, 0.8])}s", "Call macro: MR", m()]
+    elif k in (11, 12):   # a block started from a Watch / Alarm inside block A while a sibling block B inside A is active
+        intr = "Watch" if k == 11 else rng.choice(["Watch", "Alarm"])
+        lines = ["Base: s", "Block: sbA", f"    {intr}: Block Time > {w2} s", "        Block: sbC", "            " + m(),
+                 "            End block", "        " + m(), "    " + m(), "    Block: sbB", "        " + m(),
+                 f"        Wait: {w1 + w2 + 0.4}s", "        " + m(), "        End block", "    " + m(), "    End block", m()]
+    elif k == 9:      # a block started from a Watch (or Alarm) inside a block that stays active
         intr = rng.choice(["Watch", "Watch", "Alarm"])
         lines = ["Base: s", "Block: sbA", f"    {intr}: Block Time > {w2} s", "        Block: sbW", "            " + m(),
                  "            End block", "        " + m(), "    " + m(), f"    Wait: {w1 + w2 + 0.6}s", "    " + m(), "    End block", m()]
